@@ -88,7 +88,13 @@ func runC11(c *gen.Ctx) error {
 	inFast, inSlow := c11InProcScenarios(c)
 	var bg sync.WaitGroup
 	wire := c11WireScenarios(c)
-	bg.Add(3)
+	refhang := c11RefHangScenarios(c)
+	c.E.Add("kind:refhang", len(refhang))
+	bg.Add(4)
+	go func() {
+		defer bg.Done()
+		c.DoParallel("refhang", refhang, len(refhang))
+	}()
 	go func() {
 		defer bg.Done()
 		c.DoParallel("oscmd", oscmdServerScenarios(c), 4)
